@@ -919,7 +919,8 @@ def _duplicate(t, inst, path, idx, rng):
 def check_c19(kind, case, answer):
     """None when the answer satisfies the property statement, else '<CATEGORY>: description'.
     Categories: DIED PANIC XTEXT-REJECTED XTEXT-STRUCTURE NOVALUE INVALID LEAVES STORE GENERIC-NEQ TYPED-NEQ TEXT-NEQ
-    (conforming data), PANIC / ACCEPTED (mismatching data; ACCEPTED = a value although the shape does not match),
+    EMPTY-INVALID (conforming data), PANIC / ACCEPTED-LOSSY / ACCEPTED-SAME (mismatching data: a value although the
+    in-file definition differs; LOSSY = parts of the block are ignored and disappear when the value is stored),
     VALUE-NEQ VALUE-DEBUG (kind VALUE)."""
     if isinstance(answer, str):
         return 'DIED: ' + answer
@@ -961,9 +962,12 @@ def check_c19(kind, case, answer):
         return 'PANIC: store/reload/write: ' + store[1].replace('\n', ' ')
     if not conforming:
         if decode[0] == 'OK':
-            changed = bool(store) and store[0] == 'OK' and store[3] != store[4]
-            return 'ACCEPTED: a value is decoded although the shape differs (%s)%s: %s' % (
-                meta, '; storing it changes the written content' if changed else '', decode[1][:200])
+            lossy = not store or store[0] != 'OK' or store[3] != store[4]
+            if lossy:
+                return 'ACCEPTED-LOSSY: a value is decoded although the shape differs (%s); storing it changes the written content: %s' % (
+                    meta, decode[1][:200])
+            return 'ACCEPTED-SAME: a value is decoded under the other definition (%s); load + store + write reproduces the text: %s' % (
+                meta, decode[1][:200])
         return None
     if valid != 1 and re.fullmatch(r'/begin IF_DATA\s*/end IF_DATA', case[2]):
         return 'EMPTY-INVALID: an IF_DATA block without content (empty sequence / taggedunion / taggedstruct) is never valid'
